@@ -595,13 +595,30 @@ func ledgerHistory(c *Ctx, id int) {
 				data = make([]byte, c.R.Intn(40))
 				c.R.Read(data)
 			}
-			submit("transfer", &nom.AccountBlock{BlockType: nom.BlockTypeUserSend, Address: from, ToAddress: to, TokenStandard: t, Amount: pickAmount(from, t), Data: data})
+			am := pickAmount(from, t)
+			switch c.R.Intn(8) {
+			case 0: // data-only message: no token at all
+				t, am = types.ZeroTokenStandard, big.NewInt(0)
+				c.Hit("transfer-data-only")
+			case 1: // a token, amount zero
+				am = big.NewInt(0)
+				c.Hit("transfer-zero-amount")
+			}
+			submit("transfer", &nom.AccountBlock{BlockType: nom.BlockTypeUserSend, Address: from, ToAddress: to, TokenStandard: t, Amount: am, Data: data})
 		case x < 42: // receive attempts: addressee, a third account, an already received send
-			var cands []*sendRec
+			var cands, toEmbedded, already []*sendRec
 			for _, hs := range r.sendList {
 				rec := r.sends[hs]
-				if rec.confirmed != 0 && !types.IsEmbeddedAddress(rec.to) {
-					cands = append(cands, rec)
+				if rec.confirmed == 0 {
+					continue
+				}
+				if types.IsEmbeddedAddress(rec.to) {
+					toEmbedded = append(toEmbedded, rec)
+					continue
+				}
+				cands = append(cands, rec)
+				if len(rec.received) > 0 {
+					already = append(already, rec)
 				}
 			}
 			if len(cands) == 0 {
@@ -614,11 +631,20 @@ func ledgerHistory(c *Ctx, id int) {
 			}
 			who := rec.to
 			kind := "receive"
-			if c.R.Intn(5) == 0 {
+			y := c.R.Intn(20)
+			switch {
+			case y < 4:
 				who = users[c.R.Intn(len(users))]
 				if who != rec.to {
 					kind = "receive-by-third"
 				}
+			case y < 7 && len(toEmbedded) > 0: // a user account claims a send that was addressed to an embedded contract
+				rec = toEmbedded[c.R.Intn(len(toEmbedded))]
+				who = users[c.R.Intn(len(users))]
+				kind = "receive-of-contract-send"
+			case y < 11 && len(already) > 0: // a send that was received before (whatever its amount and token), by its addressee
+				rec = already[c.R.Intn(len(already))]
+				who = rec.to
 			}
 			if keyOf(who) == nil {
 				continue
@@ -742,6 +768,12 @@ func ledgerHistory(c *Ctx, id int) {
 				r.fail("rollback to %d failed: %v", H, rerr)
 				return
 			}
+			// every list query of the embedded contracts still answers (momentum insertion itself runs spork.GetAllSporks)
+			if _, p := listQueries(n.Chain().GetFrontierMomentumStore()); p != "" {
+				r.fail("C06: after rolling back %d momentum(s) to height %d the node cannot answer a ledger query any more: %s", k, H, p)
+				return
+			}
+			c.Hit("list-queries-after-rollback")
 			for h := H + k; h > H; h-- {
 				fs := r.undo[h]
 				for i := len(fs) - 1; i >= 0; i-- {
